@@ -271,6 +271,7 @@ struct Block {
 struct FnSpec {
     key: String,
     props: Vec<String>,
+    primary: Vec<String>,
     ret: String,
     mode: String, // verify | assume
     requires: Option<Block>,
@@ -361,6 +362,7 @@ fn parse_vspec(path: &Path) -> Result<Vec<Directive>, String> {
                 };
                 match word {
                     "props" => f.props = rest.split_whitespace().map(|s| s.to_string()).collect(),
+                    "primary" => f.primary = rest.split_whitespace().map(|s| s.to_string()).collect(),
                     "ret" => f.ret = rest.to_string(),
                     "mode" => f.mode = rest.to_string(),
                     "opt" => {
@@ -1627,6 +1629,7 @@ fn emit_fn(src: &Src, facts: &Facts, spec: &FnSpec, vspec_name: &str, out: &mut 
     let fn_line_end = out.cur_line();
     out.fn_ranges.push(json!({
         "fn": spec.key, "file": src.rel, "src_line": src.line_of(sig_range.0), "mode": spec.mode, "props": spec.props,
+        "primary": if spec.primary.is_empty() { spec.props.clone() } else { spec.primary.clone() },
         "line_start": fn_line_start, "line_end": fn_line_end, "rules_fired": rw.fired.iter().collect::<Vec<_>>(),
         "returns": rw.returns.len(), "loops": rw.loops.len(),
     }));
@@ -1721,6 +1724,7 @@ struct FactScan<'a> {
     poll_sites: Vec<serde_json::Value>,
     slots_writes: Vec<serde_json::Value>,
     calls: BTreeMap<String, BTreeSet<String>>,
+    call_seq: BTreeMap<String, Vec<(usize, String)>>,
     macros: BTreeMap<String, BTreeSet<String>>,
     in_test: bool,
 }
@@ -1740,6 +1744,11 @@ impl<'a> FactScan<'a> {
     fn call(&mut self, name: &str) {
         let f = self.fname();
         self.calls.entry(f).or_default().insert(name.to_string());
+    }
+    fn call_at(&mut self, name: &str, sp: Span) {
+        let f = self.fname();
+        let off = self.src.off(sp.start());
+        self.call_seq.entry(f).or_default().push((off, name.to_string()));
     }
 }
 
@@ -1801,6 +1810,7 @@ impl<'a, 'ast> Visit<'ast> for FactScan<'a> {
             let segs: Vec<String> = p.path.segments.iter().map(|s| s.ident.to_string()).collect();
             let full = segs.join("::");
             self.call(&full);
+            self.call_at(&full, c.func.span());
             let last2 = if segs.len() >= 2 { format!("{}::{}", segs[segs.len() - 2], segs[segs.len() - 1]) } else { full.clone() };
             for k in ["Box::into_raw", "Box::from_raw", "Waker::from_raw", "mem::forget", "ptr::read", "ptr::write", "drop_in_place", "ManuallyDrop::new", "ManuallyDrop::drop", "ManuallyDrop::take", "MaybeUninit::uninit", "mem::transmute", "mem::zeroed"] {
                 if last2 == k || full.ends_with(k) || (segs.len() == 1 && k.ends_with(&format!("::{}", segs[0])) && matches!(segs[0].as_str(), "drop_in_place" | "forget" | "transmute")) {
@@ -1824,6 +1834,7 @@ impl<'a, 'ast> Visit<'ast> for FactScan<'a> {
     fn visit_expr_method_call(&mut self, mc: &'ast syn::ExprMethodCall) {
         let m = mc.method.to_string();
         self.call(&format!(".{m}"));
+        self.call_at(&format!(".{m}"), mc.method.span());
         match m.as_str() {
             "assume_init" | "assume_init_drop" | "assume_init_read" | "assume_init_mut" | "assume_init_ref" | "write" if m != "write" || self.src.slice(self.src.range(mc.receiver.span())).contains("output") => {
                 self.site(&format!("MaybeUninit::{m}"), mc.method.span());
@@ -1844,6 +1855,8 @@ impl<'a, 'ast> Visit<'ast> for FactScan<'a> {
     }
     fn visit_expr_assign(&mut self, a: &'ast syn::ExprAssign) {
         let lhs: String = self.src.slice(self.src.range(a.left.span())).split_whitespace().collect();
+        let rhs: String = self.src.slice(self.src.range(a.right.span())).split_whitespace().collect();
+        self.call_at(&format!("={lhs}<-{rhs}"), a.eq_token.span());
         if lhs.ends_with(".slots") || lhs == "slots" {
             let (f, l) = self.here(a.left.span());
             self.slots_writes.push(json!({"file": f, "line": l, "fn": self.fname(), "what": format!("{lhs} = ..")}));
@@ -1859,11 +1872,12 @@ fn emit_facts(srcs: &HashMap<String, Src>, all: &[String], path: &Path) -> Resul
     let mut slots_writes = vec![];
     let mut calls: BTreeMap<String, BTreeSet<String>> = BTreeMap::new();
     let mut macros: BTreeMap<String, BTreeSet<String>> = BTreeMap::new();
+    let mut seqs: BTreeMap<String, Vec<String>> = BTreeMap::new();
     let mut impls: Vec<serde_json::Value> = vec![];
     let mut structs: Vec<serde_json::Value> = vec![];
     for rel in all {
         let src = &srcs[rel];
-        let mut fs = FactScan { src, cur_fn: vec![], unsafe_sites: vec![], wake_sites: vec![], poll_sites: vec![], slots_writes: vec![], calls: BTreeMap::new(), macros: BTreeMap::new(), in_test: false };
+        let mut fs = FactScan { src, cur_fn: vec![], unsafe_sites: vec![], wake_sites: vec![], poll_sites: vec![], slots_writes: vec![], calls: BTreeMap::new(), call_seq: BTreeMap::new(), macros: BTreeMap::new(), in_test: false };
         fs.visit_file(&src.ast);
         let _ = fs.in_test;
         unsafe_sites.extend(fs.unsafe_sites);
@@ -1872,6 +1886,7 @@ fn emit_facts(srcs: &HashMap<String, Src>, all: &[String], path: &Path) -> Resul
         slots_writes.extend(fs.slots_writes);
         for (k, v) in fs.calls { calls.entry(format!("{rel}:{k}")).or_default().extend(v); }
         for (k, v) in fs.macros { macros.entry(format!("{rel}:{k}")).or_default().extend(v); }
+        for (k, mut v) in fs.call_seq { v.sort(); seqs.insert(format!("{rel}:{k}"), v.into_iter().map(|x| x.1).collect::<Vec<String>>()); }
         for it in &src.ast.items {
             if let syn::Item::Impl(imp) = it {
                 let ty = impl_self_name(imp).unwrap_or_default();
@@ -1889,7 +1904,7 @@ fn emit_facts(srcs: &HashMap<String, Src>, all: &[String], path: &Path) -> Resul
         }
     }
     let v = json!({"unsafe_sites": unsafe_sites, "wake_sites": wake_sites, "poll_sites": poll_sites, "slots_writes": slots_writes,
-        "calls": calls, "macros": macros, "impls": impls, "structs": structs});
+        "calls": calls, "call_seq": seqs, "macros": macros, "impls": impls, "structs": structs});
     std::fs::write(path, serde_json::to_string_pretty(&v).unwrap()).map_err(|e| format!("{}: {e}", path.display()))
 }
 
